@@ -151,26 +151,7 @@ def run(ctx):
             "", "keyword recognition reached from %s" % [g.name for g in callers], f)
 
     # ---------------------------------------------------------------- char fetch (shared with C19)
-    r = rep.rule("R-CHAR-FETCH",
-                 "character-fetch functions returning int with a -1 end marker never return a sign-extended char, and "
-                 "return -1 only when bufferPos == buffer.end()", floor=4)
-    tmp = type("R", (), {})()
-    for g in prog.functions.values():
-        if not qmatch(g.cls, "llbuild::ninja::Lexer") or g.ret_type() != "int":
-            continue
-        rets = [n for n in g.nodes if n.get("k") == "return" and "e" in n]
-        if not any(C19.is_minus_one(x.child("e")) for x in rets):
-            continue
-        name = g.name.split("::")[-1]
-        bad = [x for x in rets if x.child("e").get("k") == "cast" and x.child("e").get("ck") == "IntegralCast"
-               and x.child("e").tname("fromct") in ("char", "signed char")]
-        r.check(not bad, "%s|return" % name, "", "returns a plain char converted to int beside the -1 marker", g, bad[0] if bad else None)
-        bfg = BranchFacts(g)
-        for x in rets:
-            if C19.is_minus_one(x.child("e")):
-                st = bfg.at_node(x) or frozenset()
-                ok = any(a in ("(buffer.end() == bufferPos)", "(bufferPos == buffer.end())") and p for a, p in st)
-                r.check(ok, "%s|eof-only-at-end" % name, "", "-1 returned where bufferPos == buffer.end() is not established", g, x)
+    C19.r_eof_true_end(prog, rep, "R-CHAR-FETCH")
 
     # ---------------------------------------------------------------- lookup order
     r = rep.rule("R-LOOKUP-ORDER",
@@ -322,8 +303,24 @@ def run(ctx):
     errs = [c for c in f.calls() if c.get("ck") in ("operator", "indirect") and "error" in expr_str(c.child("obj") or c.child("callee"))]
     msgs = sorted(set(x["v"] for c in errs for x in c.walk() if x.get("k") == "str"))
     r.check(len(msgs) >= 4, "evalString|errors", "%d distinct diagnostics" % len(msgs), "expected diagnostics for trailing '$', bad escape, bad name, missing '}'", f)
-    simple = f.calls("isSimpleIdentifierChar")
-    r.check(len(simple) == 2, "evalString|simple-identifier", "", "$name scanning must use isSimpleIdentifierChar for first and following characters", f)
+    # the two name classes: inside `${…}` a name is a full identifier ([a-zA-Z0-9_.-]); the unbraced `$name` form takes the simple class (no '.')
+    def in_braced_region(c):
+        for anc in f.ancestors(c):
+            if anc.get("k") == "if" and any(x.get("k") == "char" and x.get("v") == ord("{") for x in anc.child("c").walk()) and \
+                    "then" in anc and any(y is c for y in anc.child("then").walk()):
+                return True
+            if anc.get("k") == "case" and any(x.get("k") == "char" and x.get("v") == ord("{") for x in anc.walk() if x is not c and x.get("k") == "char"):
+                return True
+        return False
+    idc = [(c, (c.get("fn") or "").split("::")[-1]) for c in f.calls() if (c.get("fn") or "").split("::")[-1] in ("isIdentifierChar", "isSimpleIdentifierChar")]
+    braced = [(c, nm) for c, nm in idc if in_braced_region(c)]
+    plain = [(c, nm) for c, nm in idc if not in_braced_region(c)]
+    if not braced or not plain:
+        raise AnalysisBroken("evalString: %d identifier tests inside the `${` branch, %d outside" % (len(braced), len(plain)))
+    badb = [c for c, nm in braced if nm != "isIdentifierChar"]
+    r.check(not badb, "evalString|braced-name-class", "%d tests" % len(braced), "a `${name}` reference is scanned with the simple-name class: a dotted name (legal in a binding and in braces) is rejected and expands to nothing", f, badb[0] if badb else None)
+    badp = [c for c, nm in plain if nm != "isSimpleIdentifierChar"]
+    r.check(not badp, "evalString|simple-identifier", "%d tests" % len(plain), "an unbraced `$name` reference is scanned with the full-name class: `$out.d` would swallow the `.d`", f, badp[0] if badp else None)
 
     # ---------------------------------------------------------------- shell-safe set
     r = rep.rule("R-SHELL-SAFE-SET",
@@ -468,4 +465,8 @@ VARIANTS = [
          old='    if (memcmp("rule", result.start, 4) == 0)\n      return setTokenKind(result, Token::Kind::KWRule);\n    if (memcmp("pool", result.start, 4) == 0)\n      return setTokenKind(result, Token::Kind::KWPool);',
          new='    if (memcmp("pool", result.start, 4) == 0)\n      return setTokenKind(result, Token::Kind::KWPool);\n    if (0 == memcmp("rule", result.start, 4))\n      return setTokenKind(result, Token::Kind::KWRule);',
          expect=None),
+    dict(name="braced-reference-takes-simple-names-only", file="lib/Ninja/ManifestLoader.cpp", old="          if (!Lexer::isIdentifierChar(c))\n            isValid = false;", new="          if (!Lexer::isSimpleIdentifierChar(c))\n            isValid = false;",
+         expect=("R-ESCAPES", "braced-name-class")),
+    dict(name="unbraced-reference-takes-dotted-names", file="lib/Ninja/ManifestLoader.cpp", old="        while (pos != end && Lexer::isSimpleIdentifierChar(*pos))", new="        while (pos != end && Lexer::isIdentifierChar(*pos))",
+         expect=("R-ESCAPES", "simple-identifier")),
 ]
